@@ -121,6 +121,14 @@ def node_fatal(res):
     return None
 
 
+def sort_log_as_set(line, sort_steps):
+    parts = line.split(" | ")
+    if len(parts) >= 3 and parts[0].split(" ", 1)[0] in sort_steps and parts[1]:
+        parts[1] = ";".join(sorted(set(t for t in parts[1].split(";") if t))) + ";"
+        return " | ".join(parts)
+    return line
+
+
 def lanes(trace):
     """trace lines -> ordered list of (step, lane, rest)"""
     out = []
@@ -292,6 +300,18 @@ def evaluate_chunk(cx, hs, base, tag):
                 cx.cands.append({"kind": "completion", "sig": ("completion", str(cb)[:60]), "src": src, "index": base + i,
                                  "what": "completion boa=%s v8=%s" % (cb, cn), "step": None, "lane": None, "desc": h.describe()})
                 continue
+        # How often the default comparator of sort / toSorted converts an element to a string (and so how often an
+        # observable toString / join / prototype getter runs) depends on the sorting algorithm, which is implementation-
+        # defined: the log of such a step is compared as a set of events.
+        sort_steps = set()
+        for line in h.lines:
+            m = re.match(r"S\((\d+),", line)
+            if m and ("sort" in line or "toSorted" in line):
+                sort_steps.add(m.group(1))
+        if sort_steps:
+            tb = [sort_log_as_set(l, sort_steps) for l in tb]
+            if tn is not None:
+                tn = [sort_log_as_set(l, sort_steps) for l in tn]
         a = analyse(tb, tn)
         cx.steps += a["n_cmp"]
         cx.count("lanes", "R-steps", a["n_cmp"])
@@ -641,6 +661,10 @@ def replay(path, seed):
         print("NO-VERDICT %s: replay inconclusive (%s)" % (PID, fb or node_fatal(y) if y else "v8 unavailable"))
         return 2
     tn = [norm_v8(l) for l in (y.get("trace") or [])]
+    sort_steps = set(m.group(1) for m in re.finditer(r"S\((\d+),\d+,function\(t\)\{[^\n]*?(?:sort|toSorted)", rep["src"]))
+    if sort_steps:
+        tb = [sort_log_as_set(l, sort_steps) for l in tb]
+        tn = [sort_log_as_set(l, sort_steps) for l in tn]
     a = analyse(tb, tn)
     if a["v8"]:
         print("differs from V8 at line %d:\n  boa: %s\n  v8 : %s" % (a["v8"]["line"], a["v8"]["boa"], a["v8"]["ref"]))
